@@ -29,6 +29,11 @@ def tok_sexp(t):
 
 
 ZERO_WIDTH = (tokenize.INDENT, tokenize.DEDENT, tokenize.ENDMARKER)
+FSTRING_MIDDLE = getattr(tokenize, 'FSTRING_MIDDLE', -1)
+
+
+def esc_braces(s):
+    return s.replace('{', '{{').replace('}', '}}')
 
 
 def atoks_of(code, toks):
@@ -51,14 +56,16 @@ def atoks_of(code, toks):
         if s < pos:
             return None
         out.append([code[pos:s], name, t.string])
-        pos = s + len(t.string)
+        # an f-string literal part appears in the source with its braces doubled ('{{' is tokenized as '{')
+        width = len(esc_braces(t.string)) if t.type == FSTRING_MIDDLE else len(t.string)
+        pos = s + width
     return out
 
 
 # python mirrors of the class predicates (used for the direct oracle when the Lean driver is unavailable,
 # and cross-checked against the driver otherwise)
 def _vis(a):
-    return '' if a[1] == 'INDENT' else a[2]
+    return '' if a[1] == 'INDENT' else esc_braces(a[2]) if a[1] == 'FSTRING_MIDDLE' else a[2]
 
 
 def py_cont_inside_token(atoks):
